@@ -27,6 +27,8 @@ type rec struct {
 	ESrv     string            `json:"esrv"`
 	TM       string            `json:"tm"`
 	Sig      map[string]string `json:"sig"`
+	Src      map[string]string `json:"src"` // where the keys of a server are: "db" | "fetcher"
+	Vol      bool              `json:"vol"` // the fetcher volunteers fresh copies of database-held keys
 	Required []string          `json:"required"`
 	Strict   bool              `json:"strict"`
 	Verdict  bool              `json:"verdict"`
@@ -56,6 +58,7 @@ type world struct {
 	ts     int64
 	now    int64
 	db     *memDB
+	fetch  *memDB // the key fetcher's table (nil: the key ring has no fetcher)
 	sender string
 }
 
@@ -79,12 +82,20 @@ type keyUse struct {
 
 // memDB is the in-memory KeyDatabase behind the real KeyRing.
 type memDB struct {
-	keys map[gmsl.PublicKeyLookupRequest]gmsl.PublicKeyLookupResult
+	keys      map[gmsl.PublicKeyLookupRequest]gmsl.PublicKeyLookupResult
+	volunteer bool
 }
 
 func (d *memDB) FetcherName() string { return "memDB" }
 func (d *memDB) FetchKeys(_ context.Context, reqs map[gmsl.PublicKeyLookupRequest]spec.Timestamp) (map[gmsl.PublicKeyLookupRequest]gmsl.PublicKeyLookupResult, error) {
 	out := map[gmsl.PublicKeyLookupRequest]gmsl.PublicKeyLookupResult{}
+	if d.volunteer {
+		// as a notary or a /key/v2/server reply listing several keys may: everything it has, asked for or not
+		for rq, k := range d.keys {
+			out[rq] = k
+		}
+		return out, nil
+	}
 	for rq := range reqs {
 		if k, ok := d.keys[rq]; ok {
 			out[rq] = k
@@ -101,6 +112,19 @@ func (d *memDB) put(server string, id gmsl.KeyID, pub ed25519.PublicKey, validUn
 		VerifyKey:    gmsl.VerifyKey{Key: spec.Base64Bytes(pub)},
 		ValidUntilTS: spec.Timestamp(validUntil),
 		ExpiredTS:    spec.Timestamp(expired),
+	}
+}
+
+// putKey registers a key of abstract server s where the scenario says its keys are; with a volunteering fetcher
+// every database-held key also has an unexpired copy, valid for a day from now, at the fetcher.
+func (w *world) putKey(s, server string, id gmsl.KeyID, p ed25519.PublicKey, validUntil, expired int64) {
+	if w.r.Src[s] == "fetcher" {
+		w.fetch.put(server, id, p, validUntil, expired)
+		return
+	}
+	w.db.put(server, id, p, validUntil, expired)
+	if w.r.Vol {
+		w.fetch.put(server, id, p, w.now+day, 0)
 	}
 }
 
@@ -200,7 +224,7 @@ func (w *world) signaturesFor(impl gmsl.IRoomVersion, evJSON []byte, s, state st
 	}
 	current := func(id gmsl.KeyID, k ed25519.PrivateKey) {
 		if !userKey {
-			w.db.put(name, id, pub(k), vu, 0)
+			w.putKey(s, name, id, pub(k), vu, 0)
 		}
 	}
 	good := func(id gmsl.KeyID, k ed25519.PrivateKey) sigEntry {
@@ -214,16 +238,16 @@ func (w *world) signaturesFor(impl gmsl.IRoomVersion, evJSON []byte, s, state st
 		current(id1, k1)
 		return []sigEntry{good(id1, k1)}
 	case "vu_eq":
-		w.db.put(name, id1, pub(k1), w.ts, 0)
+		w.putKey(s, name, id1, pub(k1), w.ts, 0)
 		return []sigEntry{good(id1, k1)}
 	case "after_vu":
-		w.db.put(name, id1, pub(k1), w.ts-hour, 0)
+		w.putKey(s, name, id1, pub(k1), w.ts-hour, 0)
 		return []sigEntry{good(id1, k1)}
 	case "expired":
-		w.db.put(name, id1, pub(k1), 0, w.ts-hour)
+		w.putKey(s, name, id1, pub(k1), 0, w.ts-hour)
 		return []sigEntry{good(id1, k1)}
 	case "exp_later":
-		w.db.put(name, id1, pub(k1), 0, w.ts+hour)
+		w.putKey(s, name, id1, pub(k1), 0, w.ts+hour)
 		return []sigEntry{good(id1, k1)}
 	case "corrupt":
 		current(id1, k1)
@@ -349,6 +373,11 @@ func userIDForSender(_ spec.RoomID, senderID spec.SenderID) (*spec.UserID, error
 
 func newWorld(r *rec, seed int64) *world {
 	w := &world{r: r, db: &memDB{keys: map[gmsl.PublicKeyLookupRequest]gmsl.PublicKeyLookupResult{}}}
+	for _, where := range r.Src {
+		if where == "fetcher" || r.Vol {
+			w.fetch = &memDB{keys: map[gmsl.PublicKeyLookupRequest]gmsl.PublicKeyLookupResult{}, volunteer: r.Vol}
+		}
+	}
 	w.now = time.Now().UnixMilli()
 	switch r.TM {
 	case "normal":
@@ -406,7 +435,20 @@ func class(r *rec) string {
 		strict = "pseudo"
 	}
 	_ = other
-	return fmt.Sprintf("%s%s/%s/%s/time=%s", r.Kind, via, strings.Join(st, ","), strict, r.TM)
+	keys := ""
+	var fromFetcher []string
+	for _, s := range req {
+		if r.Src[s] == "fetcher" {
+			fromFetcher = append(fromFetcher, s)
+		}
+	}
+	if len(fromFetcher) > 0 || r.Vol {
+		keys = fmt.Sprintf("/keys-at-fetcher=%d-of-%d", len(fromFetcher), len(req))
+		if r.Vol {
+			keys += "+volunteering"
+		}
+	}
+	return fmt.Sprintf("%s%s/%s/%s/time=%s%s", r.Kind, via, strings.Join(st, ","), strict, r.TM, keys)
 }
 
 // others is the state of the servers that are not required.
@@ -436,12 +478,15 @@ func replayOne(i int, raw json.RawMessage, seed int64) hx.Result {
 	w := newWorld(&r, seed)
 	p := w.compose(impl, i)
 	ring := gmsl.KeyRing{KeyDatabase: w.db}
+	if w.fetch != nil {
+		ring.KeyFetchers = []gmsl.KeyFetcher{w.fetch}
+	}
 	ctx := context.Background()
 	errOne := gmsl.VerifyEventSignatures(ctx, p, ring, userIDForSender)
 	if (errOne == nil) != r.Verdict {
 		return hx.Result{OK: false, NT: cls, Key: fmt.Sprintf("C06/verify/%s:model=%v", cls, r.Verdict),
-			What: fmt.Sprintf("VerifyEventSignatures (room version %s, %s, required servers %v, signature states %v, time %s): the specification says valid=%v, the library returned %v",
-				r.Ver, r.Kind, r.Required, r.Sig, r.TM, r.Verdict, errOne),
+			What: fmt.Sprintf("VerifyEventSignatures (room version %s, %s, required servers %v, signature states %v, keys at %v, fetcher volunteers=%v, time %s): the specification says valid=%v, the library returned %v",
+				r.Ver, r.Kind, r.Required, r.Sig, r.Src, r.Vol, r.TM, r.Verdict, errOne),
 			Want: r.Verdict, Got: fmt.Sprint(errOne), Extra: string(p.JSON())}
 	}
 	// the batch form: between an event that verifies and one that does not
